@@ -17,7 +17,28 @@ from pyvc.contracts import (Any, Bool, Callback, Const, DequeOf, EmptyDict, Even
 
 from contracts.c16_env import Fut, CANCELLED, EXCEPTION, FUT, FUT_INLINE, PENDING, RESULT, fst, fut_released
 
-ENVIRONMENT = []
+ENVIRONMENT = [
+    'C16: the cross-layer fan-out Disconnection_Complete -> Host.on_hci_disconnection_complete_event -> emit("disconnection") -> '
+    '{Device.on_disconnection -> connection.emit("disconnection") -> {cancel_on_disconnection waiters, smp.Session, gatt Client}, '
+    'gatt Server.on_disconnection; ChannelManager.on_disconnection -> channel.abort()} is NOT composed by the prover: each function is '
+    'proved against recording stubs of its callees / listeners, and pyee delivering an emitted event to every registered listener is '
+    'environment.  Checked: Device subscribes to the host events by reflection (device_host_event_handlers, at import), '
+    'ChannelManager.host.setter and gatt Client.__init__ by lemmas; smp.Session.__init__ (connection.on(EVENT_DISCONNECTION, ...)) is not',
+    'C16: "a cut at every message boundary, under every schedule" is replaced by: at every await of the procedures under contract the '
+    'teardown of the owning layer is run on the state the procedure has built so far (contracts/c16_waiters.py) -- this relies on A1 '
+    '(code between two awaits is atomic); interleavings of two procedures on the same object are not enumerated',
+    'C16: listeners / callbacks invoked by the teardown functions (connection.emit, channel.emit, DataPacketQueue callbacks) do not raise '
+    'and do not re-enter the object (A2); an exception out of a listener of Host.emit("disconnection") would skip the host clean-up '
+    '(that Device.on_disconnection and ChannelManager.on_disconnection raise nothing is proved)',
+    'C16: table representation invariants assumed as preconditions, not proved here: a link is stored under its own handle in '
+    'Device.connections / sco_links / cis_links; a channel under its own source CID in ChannelManager.channels[h] and under its peer CID '
+    'in le_coc_channels[h] (C09 proves the L2CAP one); controller connections under their own peer address; a handle is in at most one '
+    'of the host link tables (the controller allocates handles from one space)',
+    'C16: ChannelManager.on_disconnection is proved on a view of the four tables at the one key it is called with '
+    '(contracts/c16_env.py:KeyView: any access with another key is a failed obligation); dict.pop/get at that key are the dict model (A4)',
+    'C16: RFCOMM / SDP / AVDTP / AVCTP / HFP transactions are covered only through the L2CAP close of their channel (abort -> "close" event); '
+    'their own waiters (rfcomm DLC/multiplexer futures, sdp/avdtp transaction futures) are not under contract',
+]
 
 HANDLE = IntRange(0, 0xFFFF)
 
@@ -436,9 +457,9 @@ model('bumble.controller:ScoLink#c16', fields=dict(handle=(HANDLE, 0), peer_addr
 model(
     'bumble.controller:Controller#c16',
     fields=dict(
-        le_connections=MapOf('bumble.controller:Connection#c16'),
-        classic_connections=MapOf('bumble.controller:Connection#c16'),
-        sco_links=MapOf('bumble.controller:ScoLink#c16'),
+        le_connections=MapOf('bumble.controller:Connection#c16', key=ADDR),
+        classic_connections=MapOf('bumble.controller:Connection#c16', key=ADDR),
+        sco_links=MapOf('bumble.controller:ScoLink#c16', key=ADDR),
     ),
     methods={'send_hci_packet': Callback('send_hci_packet', effect=ctl_send)},
 )
@@ -508,9 +529,9 @@ model('contracts.c16_env:Fut#slot', fields=dict(st=(IntRange(-1, 3), -1)))
 model(
     'bumble.gatt_server:Server#c16',
     fields=dict(
-        subscribers=MapOf('builtins:dict#c16row'),
-        indication_semaphores=MapOf('asyncio.locks:Semaphore#c16', default_factory=True),
-        pending_confirmations=MapOf('contracts.c16_env:Fut#slot', default_factory=True),
+        subscribers=MapOf('builtins:dict#c16row', key=BEARER),
+        indication_semaphores=MapOf('asyncio.locks:Semaphore#c16', default_factory=True, key=BEARER),
+        pending_confirmations=MapOf('contracts.c16_env:Fut#slot', default_factory=True, key=BEARER),
     ),
 )
 SERVER = Inst('bumble.gatt_server:Server#c16')
